@@ -94,6 +94,12 @@ def run(ctx):
         if r != "ok":
             ctx.fail("roundtrip:" + r.split(":")[0], r, {"dag": d, "opts": c[1:]})
     ctx.extra["roundtrips"] = n
+    # input forms (Boc.__init__): the model's boc_normalize / entry points against the library on hex, base64 and
+    # adversarial text (whitespace, wrong padding, url-safe alphabet, non-ASCII, odd digit counts, hex-looking base64)
+    texts = form_texts(rng, [a[3:] for a in impl_s if a.startswith("ok ") and len(a) < 4000], ctx.n(400, 4000))
+    ctx.correspond("Boc.__init__", texts, py_norm, lambda t: "boc_norm " + codes(t), lambda t: len(t) > 0)
+    good = [t for t in texts if t.startswith(("te6cc", "b5ee9c72", "B5EE9C72"))][:ctx.n(150, 1500)]
+    ctx.correspond("one_from_boc-entry-points", good, py_entry, lambda t: "boc_in " + codes(t), lambda t: True)
     ctx.extra["size_distribution"] = dist([len(c[0]) for c in ser_cases])
 
 
@@ -119,6 +125,79 @@ def same_structure(a, b, memo=None):
             return False
         stack.extend(zip(x.refs, y.refs))
     return True
+
+
+def codes(t):
+    return ",".join(str(ord(ch)) for ch in t) or "-"
+
+
+def form_texts(rng, blobs, n):
+    import base64
+    out = []
+    if not blobs:
+        return out
+    for _ in range(n):
+        b = bytes.fromhex(rng.choice(blobs))
+        k = rng.randrange(12)
+        if k == 0:
+            t = b.hex()
+        elif k == 1:
+            t = base64.b64encode(b).decode()
+        elif k == 2:
+            t = b.hex().upper()
+        elif k == 3:                        # whitespace between bytes (accepted by bytes.fromhex) or inside a byte (not)
+            h = b.hex()
+            i = rng.randrange(0, len(h) + 1)
+            t = h[:i] + rng.choice([" ", "\t", "\n", "  ", "\r\n", "\x0b"]) + h[i:]
+        elif k == 4:                        # odd number of digits / a non-hex character
+            h = b.hex()
+            t = h[:-1] if rng.random() < 0.5 else h[:rng.randrange(len(h))] + rng.choice("gxz:-") + h[rng.randrange(len(h)):]
+        elif k == 5:                        # base64 with broken padding / extra characters / url-safe alphabet
+            e = base64.b64encode(b).decode()
+            t = rng.choice([e.rstrip("="), e + "=", e[:-1], e.replace("+", "-").replace("/", "_"), e[:5] + "\n" + e[5:],
+                            e + e, "=" + e, e[:rng.randrange(len(e))]])
+        elif k == 6:                        # non-ASCII
+            e = base64.b64encode(b).decode()
+            t = e[:3] + rng.choice(["\u00e9", "\u0416", "\u20ac"]) + e[3:]
+        elif k == 7:                        # base64 text made of hex digits only: read as hex
+            t = "".join(rng.choice("0123456789abcdefABCDEF") for _ in range(rng.choice([4, 8, 12, 16])))
+        elif k == 8:
+            t = "".join(rng.choice("ABCDEFGHabcdefgh0123456789+/=") for _ in range(rng.randrange(0, 12)))
+        elif k == 9:
+            t = ""
+        elif k == 10:                       # corrupted payload in otherwise valid text
+            bb = bytearray(b)
+            bb[rng.randrange(len(bb))] ^= 1 << rng.randrange(8)
+            t = bytes(bb).hex() if rng.random() < 0.5 else base64.b64encode(bytes(bb)).decode()
+        else:
+            t = base64.b64encode(b[:rng.randrange(len(b) + 1)]).decode()
+        out.append(t)
+    return out
+
+
+def py_norm(t):
+    from pytoniq_core.boc.deserialize import Boc, BocError
+    try:
+        return "ok " + (Boc(t).data.hex() or "-")
+    except BocError:
+        return "err Boc"
+    except ValueError:
+        return "err Value"
+
+
+def py_entry(t):
+    from pytoniq_core.boc.cell import Cell
+    from pytoniq_core.boc.slice import Slice
+    from pytoniq_core.boc.builder import Builder
+    c = Cell.one_from_boc(t)
+
+    def view(f):
+        try:
+            x = f()
+            return f"{x.bits.to01() or '-'}/{len(x.refs) - getattr(x, 'ref_offset', 0)}"
+        except Exception as e:
+            return "err"
+    return f"ok {c.hash.hex()} slice={view(lambda: Slice.one_from_boc(t))} builder={view(lambda: Builder.one_from_boc(t))}"
 
 
 def roundtrip(dag, blob):
